@@ -86,7 +86,8 @@ CLAIMED["C19"] = (
 CLAIMED["C13"] = (
     "MIR layout-event agreement between writers and readers (R-PAIR, strong projection), per-marker arm agreement for constant "
     "one-byte presence/kind markers (R-PAIR.marker), inverse dispatch tables (R-VARIANT.inverse) and flush-before-seek ordering of the "
-    "buffering writer (R-ORDER); continuation threshold of LEB128 writers (R-VARINT.threshold)",
+    "buffering writer (R-ORDER); continuation threshold of LEB128 writers (R-VARINT.threshold); interprocedural "
+    "use-of-count rule for partial writes (R-PARTIALWRITE)",
     "static rules over MIR: every DataOutput::write_K x DataInput::read_K implementor pair and every serialize/deserialize "
     "pair of the io files must produce the same sequence of multi-byte integer widths+endianness, primitive kinds and nested "
     "(de)serialisations; each VarIntStrategy variant must decode with the helper family it encodes with",
